@@ -39,15 +39,10 @@ Proof.
   - apply nth_error_None. rewrite map_length, seq_length. lia.
 Qed.
 
-Section Proofs.
-  Variable compiled params udata input result : Type.
+Section Define.
+  Variable compiled params udata : Type.
   Notation scanner := (scanner compiled params udata).
   Notation lop := (lop params udata).
-  Notation op := (op params udata input).
-  Variable scan : scanner -> input -> result.
-  Notation step := (step scan).
-  Notation run := (run scan).
-  Notation outputs := (outputs scan).
 
   (* ---------------------------------------------------------------- define_symbol *)
   Lemma define_symbol_cases (s : scanner) name v :
@@ -174,6 +169,30 @@ Section Proofs.
 
   Lemma clone_eq (s : scanner) : clone s = s.
   Proof. destruct s; reflexivity. Qed.
+
+End Define.
+Arguments define_symbol_cases {compiled params udata}.
+Arguments define_symbol_ok_iff {compiled params udata}.
+Arguments define_symbol_unknown_iff {compiled params udata}.
+Arguments define_symbol_invalid_iff {compiled params udata}.
+Arguments define_symbol_ok_effect {compiled params udata}.
+Arguments define_symbol_err_noop {compiled params udata}.
+Arguments apply_l_inner {compiled params udata}.
+Arguments apply_l_nsyms {compiled params udata}.
+Arguments apply_l_wf {compiled params udata}.
+Arguments fold_apply_inner {compiled params udata}.
+Arguments fold_apply_wf {compiled params udata}.
+Arguments clone_eq {compiled params udata}.
+
+Section Proofs.
+  Variable compiled params udata input result : Type.
+  Notation scanner := (scanner compiled params udata).
+  Notation lop := (lop params udata).
+  Notation op := (op params udata input).
+  Variable scan : scanner -> input -> result.
+  Notation step := (step scan).
+  Notation run := (run scan).
+  Notation outputs := (outputs scan).
 
   (* ---------------------------------------------------------------- one step of a history: frame *)
   Definition local_effect (c : nat) (o : op) (s : scanner) : scanner :=
